@@ -11,7 +11,7 @@ RULES = {
     "C04": [("sa.rules.b2", "r_C04"), ("sa.rules.c04", "r_C04a"), ("sa.rules.c04", "r_C04num"), ("sa.rules.c04", "r_C04defaults"), ("sa.rules.c01", "r_C01ef"), ("sa.rules.cmisc", "r_C06bcd"), ("sa.rules.cmeta", "r_mmapi"), ("sa.rules.cpn", "r_processnode")],
     "C05": [("sa.rules.b3", "r_C05_C10"), ("sa.rules.c05", "r_C05cde"), ("sa.rules.c14", "r_C14h"), ("sa.rules.c14", "r_C14inst"), ("sa.rules.b3", "r_C16a"), ("sa.rules.cpn", "r_processnode"), ("sa.rules.c05e", "r_C05children")],
     "C06": [("sa.rules.b7", "r_origin"), ("sa.rules.cmisc", "r_C06bcd"), ("sa.rules.c05", "r_C05cde"), ("sa.rules.c17", "r_C01h"), ("sa.rules.cpn", "r_processnode"), ("sa.rules.cdrv", "r_driver"), ("sa.rules.c16", "r_cachekeys")],
-    "C07": [("sa.rules.b3", "r_C07"), ("sa.rules.b6", "r_C03bc"), ("sa.rules.c03", "r_C03fgh"), ("sa.rules.c07", "r_C07eval"), ("sa.rules.c05", "r_none_tests"), ("sa.rules.c01", "r_C01i"), ("sa.rules.c25", "r_who_writes"), ("sa.rules.b3", "r_C16a"), ("sa.rules.c01e", "r_C01visitors"), ("sa.rules.cres", "r_resolver"), ("sa.rules.cpn", "r_processnode"), ("sa.rules.c05e", "r_C05children"), ("sa.rules.c32", "r_C32")],
+    "C07": [("sa.rules.b3", "r_C07"), ("sa.rules.b6", "r_C03bc"), ("sa.rules.c03", "r_C03fgh"), ("sa.rules.c07", "r_C07eval"), ("sa.rules.c05", "r_none_tests"), ("sa.rules.c01", "r_C01i"), ("sa.rules.c25", "r_who_writes"), ("sa.rules.b3", "r_C16a"), ("sa.rules.c01e", "r_C01visitors"), ("sa.rules.cres", "r_resolver"), ("sa.rules.cpn", "r_processnode"), ("sa.rules.c05e", "r_C05children"), ("sa.rules.c32", "r_C32"), ("sa.rules.c03e", "r_C03eval")],
     "C08": [("sa.rules.b3", "r_C08_C34"), ("sa.rules.cmeta", "r_initobj"), ("sa.rules.cres", "r_resolver"), ("sa.rules.cpn", "r_processnode"), ("sa.rules.c09e", "r_extrel")],
     "C09": [("sa.rules.b3", "r_C09"), ("sa.rules.b3", "r_C07"), ("sa.rules.cmisc", "r_C13d_C34f_C09d"), ("sa.rules.b3", "r_C08_C34"), ("sa.rules.cres", "r_resolver"), ("sa.rules.c10e", "r_C10eval"), ("sa.rules.cpn", "r_processnode"), ("sa.rules.c11e", "r_C11eval"), ("sa.rules.cdrv", "r_driver"), ("sa.rules.c09e", "r_extrel")],
     "C10": [("sa.rules.b3", "r_C05_C10"), ("sa.rules.c05", "r_none_tests"), ("sa.rules.b6", "r_C03bc"), ("sa.rules.c03", "r_C03fgh"), ("sa.rules.c01", "r_C01i"), ("sa.rules.c01e", "r_C01visitors"), ("sa.rules.c10e", "r_C10eval"), ("sa.rules.c05e", "r_C05children"), ("sa.rules.c14", "r_C14inst"), ("sa.rules.cres", "r_resolver"), ("sa.rules.cpn", "r_processnode")],
@@ -27,7 +27,7 @@ RULES = {
     "C20": [("sa.rules.b1", "r_C20a"), ("sa.rules.b6", "r_C19a_C01"), ("sa.rules.c16", "r_cachekeys"), ("sa.rules.c22", "r_visitor"), ("sa.rules.c21", "r_matchvisitors"), ("sa.rules.cpn", "r_processnode")],
     "C21": [("sa.rules.b6", "r_C19a_C01"), ("sa.rules.c16", "r_cachekeys"), ("sa.rules.c22", "r_visitor"), ("sa.rules.c21", "r_matchvisitors")],
     "C22": [("sa.rules.c22", "r_rule_params_eval"), ("sa.rules.b6", "r_C19a_C01"), ("sa.rules.b6", "r_C17ad_C22b"), ("sa.rules.c22", "r_visitor"), ("sa.rules.c22", "r_C22jk"), ("sa.rules.c21", "r_matchvisitors"), ("sa.rules.cpn", "r_processnode"), ("sa.rules.cmisc", "r_C06bcd")],
-    "C23": [("sa.rules.b6", "r_C23"), ("sa.rules.c22", "r_rule_params_eval"), ("sa.rules.c22", "r_visitor"), ("sa.rules.c22", "r_C23g_C24d"), ("sa.rules.c21", "r_matchvisitors"), ("sa.rules.c02", "r_C02eval"), ("sa.rules.c01e", "r_C01visitors")],
+    "C23": [("sa.rules.b6", "r_C23"), ("sa.rules.c22", "r_rule_params_eval"), ("sa.rules.c22", "r_visitor"), ("sa.rules.c22", "r_C23g_C24d"), ("sa.rules.c21", "r_matchvisitors"), ("sa.rules.c02", "r_C02eval"), ("sa.rules.c01e", "r_C01visitors"), ("sa.rules.c03e", "r_C03eval")],
     "C24": [("sa.peg", "r_C24"), ("sa.rules.c16", "r_cachekeys"), ("sa.rules.c22", "r_C23g_C24d")],
     "C25": [("sa.rules.b2", "r_C25"), ("sa.rules.c25", "r_C25efg"), ("sa.rules.c01", "r_C01i"), ("sa.rules.c25", "r_who_writes"), ("sa.rules.cmeta", "r_initclass"), ("sa.rules.cmeta", "r_namespaces"), ("sa.rules.c01e", "r_C01visitors")],
     "C26": [("sa.rules.b2", "r_C26a"), ("sa.rules.b2", "r_C26bcdef"), ("sa.rules.c26", "r_C26eval"), ("sa.rules.c26", "r_C26state")],
@@ -43,13 +43,14 @@ RULES = {
 
 # findings of one property that are *also* reported under another (same defect, two properties)
 ALSO = {
+    "C23": {"C03": ("C03.m",)},      # a valid grammar whose rule kinds cannot be determined ends in a non-textX error
     "C03": {"C01": ("C01.h",)},
     "C18": {"C15": ("C15.k", "C15.m")},
     "C20": {"C01": ("C01.k",)},
     # reference lists are attribute values too: the order clauses of C08 are clauses of C02 ("never reorder matched values")
     "C02": {"C08": ("C08.a", "C08.b", "C08.d", "C08.e"), "C01": ("C01.e", "C01.j"), "C13": ("C13.b",), "C06": ("C06.b",)},
     # "matching object of the right type": the conformance test textx_isinstance is part of C07's selector
-    "C07": {"C01": ("C01.i",), "C03": ("C03.c", "C03.d", "C03.h"), "C16": ("C16.a",), "C34": ("C34.h",), "C05": ("C05.h",), "C32": ("C32.b",)},     # C34.h: a reference bound to a builtin (a plain object) must not break the round when tool support is on
+    "C07": {"C01": ("C01.i",), "C03": ("C03.c", "C03.d", "C03.h", "C03.m"), "C16": ("C16.a",), "C34": ("C34.h",), "C05": ("C05.h",), "C32": ("C32.b",)},     # C03.m: the inheritor lists decide which objects conform to an abstract target rule; C34.h: a reference bound to a builtin (a plain object) must not break the round when tool support is on
     # C14: "__init__ ... runs before any object processor" is the ordering clause C13.a; instrumentation/storage clauses of C15
     "C14": {"C01": ("C01.j",), "C13": ("C13.a",), "C15": ("C15.h", "C15.c", "C15.d", "C15.e", "C15.f", "C15.k", "C15.m"), "C18": ("C18.k",), "C06": ("C06.b",)},
     "C15": {"C16": ("C16.a",), "C14": ("C14.a", "C14.f", "C14.e", "C14.i", "C14.j", "C14.c", "C14.k"), "C18": ("C18.a", "C18.g", "C18.c", "C18.d", "C18.j")},
@@ -60,14 +61,14 @@ ALSO = {
     # the reference spans of _pos_crossref_list are the (position, position_end) queued with each ObjCrossRef
     "C34": {"C08": ("C08.e"), "C06": ("C06.b", "C06.c", "C06.f", "C06.g"), "C05": ("C05.f",), "C14": ("C14.p",)},    # def_file_name / filename of a location: the model found by get_model
     # a user object's own position must replace the class-level one (C06.b) before a processor error is located with it
-    "C33": {"C06": ("C06.b", "C06.a", "C06.f", "C06.g"), "C13": ("C13.h",), "C01": ("C01.k",), "C28": ("C28.h",)},
+    "C33": {"C06": ("C06.b", "C06.a", "C06.f", "C06.g"), "C13": ("C13.h",), "C01": ("C01.k",), "C28": ("C28.h", "C28.i")},
     # the parent link of an object of a user class is a collected attribute: it is lost when the instrumentation ends while a load is still building objects
     "C05": {"C14": ("C14.j", "C14.m", "C14.p"), "C16": ("C16.a",)},
     # a reference list / an attribute a user class shadows at class level is shared by all objects (C08: order of one object's references; C14: __init__ arguments)
     "C08": {"C01": ("C01.j",), "C09": ("C09.f",)},
     "C06": {"C05": ("C05.f",), "C01": ("C01.h",)},
     # the CLI prints file:line:col of the error it gets
-    "C30": {"C33": ("C33.b", "C33.a",)},
+    "C30": {"C33": ("C33.b", "C33.a",), "C28": ("C28.i",)},
     # error locations of list references come from the element positions (C08.e); line/col arithmetic (C06.d)
     "C28": {"C08": ("C08.e"), "C06": ("C06.c", "C06.d"), "C07": ("C07.e",), "C33": ("C33.d",)},
     # eolterm/sep modifiers not installed -> the memoized and the plain parser disagree on the repetition's extent
